@@ -15,8 +15,8 @@ BASE_ASSUMPTIONS = [
     "overflow to inf and NaN are outside every proof); % and // have floor semantics; bool is a subtype of int; "
     "truthiness of containers = non-empty; objects live in a heap of per-attribute arrays indexed by reference "
     "(aliasing is modelled); asynchronous exceptions (KeyboardInterrupt between bytecodes) are not modelled.",
-    "console.* logging calls and the evaluation of their format arguments are ignored effects "
-    "(assumed not to raise and not to change state).",
+    "console.* logging calls, \"literal\".format(...) message construction and the evaluation of their arguments "
+    "are ignored effects (assumed not to raise and not to change state).",
     "The verified text is the FunctionDef found at file:qualname in the working tree on this run "
     "(re-parsed every run; no copy, no cache); attribute types come from sidecar class declarations.",
     "Termination is not proved (partial correctness) unless a `decreases` obligation is listed.",
